@@ -326,6 +326,10 @@ fn module_events_stage(ctx: &Ctx) -> u64 {
                 if data != Some(Binary::from(b"emit-data")) {
                     ctx.violation("c03:reply-envelope:data", json!({"case": cj, "data": data.as_ref().map(show_bin), "expected": "emit-data"}));
                 }
+                // whatever type URL a user-supplied module's answer goes under, the response data is there
+                if resp.msg_responses.len() != 1 || resp.msg_responses[0].value != Binary::from(b"emit-data") {
+                    ctx.violation("c03:reply-envelope:msg_responses", json!({"case": cj, "msg_responses": format!("{:?}", resp.msg_responses), "expected": "exactly one response whose value is the module's data"}));
+                }
             }
             SubMsgResult::Err(e) => ctx.violation("c03:reply-envelope:result-not-ok", json!({"case": cj, "error": e})),
         }
